@@ -37,7 +37,8 @@ type Case struct {
 	Opt   []rm.Slot `json:"opt"`
 	Via   string    `json:"via"`
 	Pre   int       `json:"pre"`
-	Hz    bool      `json:"hz"` // puree: the message's outer header view has its first octet (EPD) cleared before encoding
+	Sht   int       `json:"sht"` // encdisp: the message's SecurityHeader view carries this security header type (state left by earlier security processing)
+	Hz    bool      `json:"hz"`  // puree: the message's outer header view has its first octet (EPD) cleared before encoding
 	Fam   string    `json:"fam"`
 	Mt    int       `json:"mt"`
 	Count int       `json:"count"`
@@ -718,6 +719,12 @@ func runEncDisp(c Case) (e EncDisp) {
 		m.GmmMessage.GmmHeader.SetMessageType(uint8(c.Mt))
 	} else if m.GsmMessage != nil {
 		m.GsmMessage.GsmHeader.SetMessageType(uint8(c.Mt))
+	}
+	if c.Sht != 0 { // what the outer security header view holds does not decide whether there is a body to encode
+		m.SecurityHeader.ProtocolDiscriminator = 0x7E
+		m.SecurityHeader.SecurityHeaderType = uint8(c.Sht)
+		m.SecurityHeader.MessageAuthenticationCode = 0x01020304
+		m.SecurityHeader.SequenceNumber = 9
 	}
 	hdrView := func() []int {
 		if m.GmmMessage != nil {
